@@ -79,7 +79,7 @@ UNIT = Unit('pr', [
     Ghost(_t('pr_prelude.rs'), name='prelude'),
     Src('error.rs'),
     Src('define.rs'),
-    Src('parser.rs', fns=PRINTER, props=['C01', 'C12'],
+    Src('parser.rs', fns=PRINTER, props=['C01!', 'C12'],
         keep_fns=lambda k: k in KEYS,
         keep_items=lambda kind, name: (kind == 'enum') or (kind == 'impl' and name == 'ExprAST'),
         item_attr={'Literal': '#[verifier::external_derive]', 'ExprAST': '#[verifier::external_derive]'},
